@@ -18,6 +18,7 @@ import (
 	"sort"
 	"strings"
 	"sync"
+	"sync/atomic"
 	"testing"
 	"time"
 
@@ -49,20 +50,22 @@ const (
 	protoMsg = protocol.ID("/charon/dkg/bcast/2.0.0/msg")
 )
 
-// Message ids. idA/idB/idD are registered on every honest member; idPartial only on a proper subset;
-// idUnknown nowhere.
+// Message ids. commonIDs are registered on every honest member; idPartial only on a proper subset;
+// idUnknown nowhere. A member signs at most one hash per (requester, id), so the faulty member gets
+// one honest-looking shot per id and session: several ids keep the later plays meaningful.
 const (
-	idA       = "frost/round1"
-	idB       = "frost/round2"
-	idD       = "nodesig" // carries a Duration instead of a Timestamp
 	idPartial = "partial/only-some-members"
 	idUnknown = "never/registered"
+	idProbe   = "probe/hash-shape" // registered everywhere, used once by the faulty member
 )
 
-var commonIDs = []string{idA, idB, idD}
+var commonIDs = []string{
+	"frost/round1", "frost/round2", "frost/round1/shares", "nodesig/0", "nodesig/1", "lockhash", "depositdata/1", "depositdata/32",
+}
 
+// kindOfID: the nodesig ids carry a Duration, all others a Timestamp (checkMessage enforces it).
 func kindOfID(id string) string {
-	if id == idD {
+	if strings.HasPrefix(id, "nodesig") {
 		return "dur"
 	}
 
@@ -75,11 +78,11 @@ func TestCheck(t *testing.T) {
 	r := kit.Start(t, "C13")
 	defer r.Finish()
 	r.Rule("case = cluster of n in 3..6 real bcast.Components (1 or 2 ceremony sessions over the same keys) on fakenet, one member is the harness-played faulty member; " +
-		"honest members run real Broadcast calls concurrently (3 ids each) while the faulty member executes a PRNG playbook of /sig and /msg injections " +
+		"honest members run real Broadcast calls concurrently (about 40% of 8 ids each) while the faulty member executes a PRNG playbook of /sig and /msg injections " +
 		"(equivocation, withholding, signature-list permutation/truncation/duplication/substitution from other ids, payloads, members and sessions, unknown ids, re-requests, relaying foreign signed messages, alternative encodings); " +
 		"non-trivial = at least one honest broadcast reached every honest member AND the faulty member had at least one /msg accepted and one rejected; distinct = hash of the full adversary trace")
 	r.Assume("app/k1util.Sign/Verify65 and decred secp256k1 are correct (the monitor verifies every observed signature with them)")
-	r.Assume("the monitor re-implements the session-bound hash of dkg/bcast/impl.go newHashAny (sha256 over length-prefixed session, id, type url, value)")
+	r.Assume("the monitor re-implements the session-bound hash of dkg/bcast/impl.go newHashAny (sha256 over length-prefixed session, id, type url, value); a variant that additionally binds the sender peer id is accepted as conforming if a probe shows the members sign that")
 	r.Assume("fakenet authenticates the stream peer like libp2p does: the faulty member can only open streams under its own peer id")
 	r.Assume("secp256k1 signatures are unforgeable: the faulty member only uses signatures it obtained through protocol responses, messages addressed to it, or its own key")
 	r.RacePkgs(false, "dkg/bcast")
@@ -92,15 +95,15 @@ func TestCheck(t *testing.T) {
 
 		return th
 	}
-	r.Require("honest_broadcasts_delivered_to_all_honest", min(400, 8000))
-	r.Require("honest_deliveries", min(1500, 30000))
-	r.Require("adv_msg_accepted", min(300, 6000))
-	r.Require("adv_msg_rejected", min(1500, 30000))
-	r.Require("adv_sigreq_signed", min(1500, 30000))
-	r.Require("adv_sigreq_refused", min(300, 6000))
-	r.Require("adv_relay_foreign_attempts", min(150, 3000))
-	r.Require("adv_cross_session_attempts", min(60, 1200))
-	r.Require("deliveries_checked", min(2000, 40000))
+	r.Require("honest_broadcasts_delivered_to_all_honest", min(1000, 20000))
+	r.Require("honest_deliveries", min(3000, 60000))
+	r.Require("adv_msg_accepted", min(1500, 30000))
+	r.Require("adv_msg_rejected", min(3000, 60000))
+	r.Require("adv_sigreq_signed", min(3000, 60000))
+	r.Require("adv_sigreq_refused", min(1500, 30000))
+	r.Require("adv_relay_foreign_attempts", min(600, 12000))
+	r.Require("adv_cross_session_attempts", min(100, 2000))
+	r.Require("deliveries_checked", min(5000, 100000))
 
 	lc := &logCounter{counts: map[string]int64{}}
 	log.InitJSONForT(t, lc)
@@ -108,7 +111,8 @@ func TestCheck(t *testing.T) {
 	// Keys are generated once, on the test goroutine (GenerateInsecureK1Key uses t.Setenv).
 	var pool []member
 	for i := 0; i < keyPoolSize; i++ {
-		k := testutil.GenerateInsecureK1Key(t, 1000+i)
+		// seed+1 is used as a constant byte stream: 0x00 and 0xff never yield a key (endless loop).
+		k := testutil.GenerateInsecureK1Key(t, 1+i)
 		id, err := p2p.PeerIDFromKey(k.PubKey())
 		if err != nil {
 			t.Fatalf("peer id: %v", err)
@@ -116,7 +120,7 @@ func TestCheck(t *testing.T) {
 		pool = append(pool, member{key: k, pub: k.PubKey(), id: id})
 	}
 
-	n := r.N(400, 10000)
+	n := r.N(300, 6000)
 	r.Cases(n, 0, func(c *kit.Case) { runCase(c, pool) })
 
 	for k, v := range lc.snapshot() {
@@ -138,19 +142,84 @@ type hash32 [32]byte
 
 func (h hash32) String() string { return hex.EncodeToString(h[:6]) }
 
-// hashAny mirrors dkg/bcast newHashAny.
-func hashAny(session []byte, id string, a *anypb.Any) hash32 {
+// hashShape describes which fields go into the signed hash and whether they are length-prefixed.
+// Field order: session, id, sender peer id (raw bytes), type url, value.
+type hashShape struct {
+	mask     uint8
+	prefixed bool
+}
+
+const (
+	fSession uint8 = 1 << iota
+	fID
+	fSender
+	fURL
+	fValue
+)
+
+var (
+	// plainSpec mirrors dkg/bcast newHashAny of the pinned tree: sha256 over the length-prefixed
+	// session hash, message id, type url and value.
+	plainSpec = hashShape{mask: fSession | fID | fURL | fValue, prefixed: true}
+	// senderSpec additionally binds the broadcasting member ([]byte(peer.ID) between id and type
+	// url). The pinned tree does not do this; it is accepted as conforming ("signed exactly that
+	// payload for that id in that session") so that the check keeps working if the relay gap is
+	// closed that way. Which one the members use is found by a probe signature request per case.
+	senderSpec = hashShape{mask: fSession | fID | fSender | fURL | fValue, prefixed: true}
+)
+
+func (s hashShape) pack() uint32 {
+	v := uint32(s.mask)
+	if s.prefixed {
+		v |= 1 << 8
+	}
+
+	return v
+}
+
+func unpackShape(v uint32) hashShape { return hashShape{mask: uint8(v), prefixed: v&(1<<8) != 0} }
+
+func (s hashShape) String() string {
+	var parts []string
+	for i, nm := range []string{"session", "id", "sender", "typeurl", "value"} {
+		if s.mask&(1<<uint(i)) != 0 {
+			parts = append(parts, nm)
+		}
+	}
+	if !s.prefixed {
+		parts = append(parts, "no-length-prefix")
+	}
+
+	return strings.Join(parts, "+")
+}
+
+func shapedHash(sh hashShape, session []byte, id string, sender peer.ID, a *anypb.Any) hash32 {
 	h := sha256.New()
-	for _, f := range [][]byte{session, []byte(id), []byte(a.GetTypeUrl()), a.GetValue()} {
-		var l [8]byte
-		binary.BigEndian.PutUint64(l[:], uint64(len(f)))
-		_, _ = h.Write(l[:])
+	for i, f := range [][]byte{session, []byte(id), []byte(sender), []byte(a.GetTypeUrl()), a.GetValue()} {
+		if sh.mask&(1<<uint(i)) == 0 {
+			continue
+		}
+		if sh.prefixed {
+			var l [8]byte
+			binary.BigEndian.PutUint64(l[:], uint64(len(f)))
+			_, _ = h.Write(l[:])
+		}
 		_, _ = h.Write(f)
 	}
 	var out hash32
 	copy(out[:], h.Sum(nil))
 
 	return out
+}
+
+// specHash is the hash a member has to have signed for (session, id, payload) broadcast by sender.
+func (m *monitor) specHash(w *world, id string, sender int, a *anypb.Any) hash32 {
+	var pid peer.ID
+	if sender >= 0 && sender < len(m.members) {
+		pid = m.members[sender].id
+	}
+
+	return shapedHash(unpackShape(m.spec.Load()), w.session, id, pid, a)
 }
 
 // payload is one application message together with every wire encoding the harness uses for it.
@@ -231,6 +300,7 @@ type delivery struct {
 	Payload  string `json:"payload"` // tag, or "?" for a payload the harness never created
 	Label    string `json:"via"`
 	key      string
+	exact    *hash32 // hash of the exact wire message (known for the faulty member's injections)
 }
 
 type honestBcast struct {
@@ -257,6 +327,8 @@ type monitor struct {
 	dels     []delivery
 	advDel   map[[2]int]int
 	curLabel string
+	curHash  hash32
+	spec     atomic.Uint32 // packed hashShape: plainSpec or senderSpec
 	counts   map[string]int64
 	verifies int64
 }
@@ -290,7 +362,7 @@ func (m *monitor) observeFull(w *world, from int, msg *pb.BCastMessage) {
 	if msg.GetMessage() == nil {
 		return
 	}
-	h := hashAny(w.session, msg.GetId(), msg.GetMessage())
+	h := m.specHash(w, msg.GetId(), from, msg.GetMessage())
 	fp := sha256.New()
 	_, _ = fp.Write(h[:])
 	_, _ = fmt.Fprintf(fp, "%d|", from)
@@ -341,6 +413,8 @@ func (m *monitor) deliver(w *world, receiver int, pid peer.ID, id string, msg pr
 	}
 	if sender == m.adv {
 		d.Label = m.curLabel
+		h := m.curHash
+		d.exact = &h
 		m.advDel[[2]int{w.idx, receiver}]++
 	}
 	m.dels = append(m.dels, d)
@@ -381,6 +455,7 @@ func runCase(c *kit.Case, pool []member) {
 		sigFor: map[sigKey]struct{}{}, signed: map[signedKey]struct{}{}, seenFull: map[hash32]struct{}{},
 		advDel: map[[2]int]int{}, counts: map[string]int64{},
 	}
+	mon.spec.Store(plainSpec.pack())
 	for _, pi := range rng.Perm(len(pool))[:n] {
 		mon.idxOf[pool[pi].id] = len(mon.members)
 		mon.members = append(mon.members, pool[pi])
@@ -422,6 +497,7 @@ func runCase(c *kit.Case, pool []member) {
 			for _, id := range commonIDs {
 				comp.RegisterMessageIDFuncs(id, cb, checkFunc(mon, kindOfID(id)))
 			}
+			comp.RegisterMessageIDFuncs(idProbe, cb, checkFunc(mon, "ts"))
 			if w.partial[i] {
 				comp.RegisterMessageIDFuncs(idPartial, cb, checkFunc(mon, "ts"))
 			}
@@ -470,7 +546,7 @@ func runCase(c *kit.Case, pool []member) {
 		})
 	}
 
-	// Honest broadcast plan: every honest member broadcasts (most of) the common ids once.
+	// Honest broadcast plan: every honest member broadcasts about 40% of the common ids once.
 	var plan []*honestBcast
 	pcount := 0
 	for _, w := range mon.worlds {
@@ -479,7 +555,7 @@ func runCase(c *kit.Case, pool []member) {
 				continue
 			}
 			for _, id := range commonIDs {
-				if rng.Intn(100) < 12 {
+				if rng.Intn(100) < 60 {
 					continue
 				}
 				pcount++
@@ -533,6 +609,7 @@ func runCase(c *kit.Case, pool []member) {
 	if r.Thorough() {
 		steps += rng.Intn(12)
 	}
+	a.probe()
 	cut1 := len(plan) / 2
 	cut2 := cut1 + (len(plan)-cut1)/2
 	wave0 := launch(plan[:cut1])
@@ -614,14 +691,15 @@ func evaluate(c *kit.Case, cfg caseCfg, mon *monitor, a *adversary, plan []*hone
 		}
 		best := -1
 		for _, enc := range p.encs {
-			hh := hashAny(mon.worlds[d.World].session, d.ID, enc)
+			hh := mon.specHash(mon.worlds[d.World], d.ID, d.Sender, enc)
 			var miss []int
 			for i := 0; i < n; i++ {
 				if _, ok := mon.signed[signedKey{i, hh}]; !ok {
 					miss = append(miss, i)
 				}
 			}
-			if best < 0 || len(miss) < best {
+			// fewest missing wins; on a tie prefer the encoding that was actually on the wire
+			if best < 0 || len(miss) < best || (len(miss) == best && best > 0 && d.exact != nil && hh == *d.exact) {
 				best, missing, h = len(miss), miss, hh
 			}
 		}
@@ -716,7 +794,7 @@ func evaluate(c *kit.Case, cfg caseCfg, mon *monitor, a *adversary, plan []*hone
 			cosigned := false
 			if p := mon.payloads[d.key]; p != nil {
 				for _, enc := range p.encs {
-					hh := hashAny(mon.worlds[d.World].session, d.ID, enc)
+					hh := mon.specHash(mon.worlds[d.World], d.ID, d.Sender, enc)
 					if _, ok := mon.sigFor[sigKey{d.Receiver, d.Sender, hh}]; ok {
 						cosigned = true
 					}
@@ -789,6 +867,7 @@ func evaluate(c *kit.Case, cfg caseCfg, mon *monitor, a *adversary, plan []*hone
 	for k, v := range a.counts {
 		r.Count(k, v)
 	}
+	r.Seen("conforming_hash_shape_in_force", unpackShape(mon.spec.Load()).String())
 	r.Seen("cluster_sizes", fmt.Sprint(n))
 	r.Seen("faulty_member_position", fmt.Sprintf("%d/%d", cfg.Adv, n))
 	if c.Idx%97 == 3 {
@@ -853,9 +932,9 @@ func (l *logCounter) Write(p []byte) (int, error) {
 		if !strings.Contains(line, "P2P stream handler encountered an error") && !strings.Contains(line, "LibP2P received invalid proto") {
 			continue
 		}
-		e := field(line, `"err":"`)
-		if e == "" {
-			e = field(line, `"error":"`)
+		e := field(line, `"msg":"`)
+		if i := strings.Index(e, "could not be processed: "); i >= 0 {
+			e = e[i+len("could not be processed: "):]
 		}
 		if i := strings.Index(e, ": got "); i > 0 {
 			e = e[:i]
